@@ -21,6 +21,8 @@ const (
 	TFn2   Ty = "fn2"  // (int,int) -> int
 	TCur   Ty = "cur"  // int -> (int -> int)
 	TRecF  Ty = "recf" // map {v:int, f: int->int}  (closure stored in a map)
+	TRecG  Ty = "recg" // map {v:int, get: str->int}: the field is named like a map method with the same signature
+	TRecI  Ty = "reci" // map {v:int, isAvail: str->int}
 )
 
 var ArgTypes = []Ty{TInt, TInt, TInt, TFloat, TStr, TBool, TLInt, TRec}
@@ -69,6 +71,17 @@ func (s *Scope) hideAll() *Scope {
 		n.Vars = append(n.Vars, Binding{b.Name, "hidden"})
 	}
 	return n
+}
+
+// RecField is the name of the closure field of the closure-in-map types.
+func RecField(t Ty) string {
+	switch t {
+	case TRecG:
+		return "get"
+	case TRecI:
+		return "isAvail"
+	}
+	return "f"
 }
 
 func (s *Scope) ofType(t Ty) []string {
@@ -244,6 +257,10 @@ func (g *Gen) leaf(t Ty, sc *Scope) *Expr {
 		p := g.freshNames(sc, 1)
 		g.nodes += 5
 		return Map([]string{"v", "f"}, []*Expr{Int(rapid.IntRange(0, 9).Draw(g.T, "rv")), Lam(p, Bin("*", Var(p[0]), Int(2)))})
+	case TRecG, TRecI:
+		p := g.freshNames(sc, 1)
+		g.nodes += 5
+		return Map([]string{"v", RecField(t)}, []*Expr{Int(rapid.IntRange(0, 9).Draw(g.T, "rv")), Lam(p, Bin("+", MCall(Var(p[0]), "len"), Int(10)))})
 	}
 	panic("leaf: unknown type " + string(t))
 }
@@ -327,7 +344,7 @@ func (g *Gen) Expr(t Ty, sc *Scope, d int, letOK bool) *Expr {
 		return g.genLInt(sc, d)
 	case TRec:
 		return g.genRec(sc, d)
-	case TFn1, TFn2, TCur, TRecF:
+	case TFn1, TFn2, TCur, TRecF, TRecG, TRecI:
 		return g.genFn(t, sc, d)
 	}
 	panic("Expr: unknown type " + string(t))
@@ -339,7 +356,7 @@ func (g *Gen) pickArgType() Ty {
 }
 
 func (g *Gen) pickLetType() Ty {
-	ts := []Ty{TInt, TInt, TInt, TInt, TFloat, TStr, TBool, TLInt, TRec, TFn1, TFn2, TCur, TRecF}
+	ts := []Ty{TInt, TInt, TInt, TInt, TFloat, TStr, TBool, TLInt, TRec, TFn1, TFn2, TCur, TRecF, TRecG, TRecI}
 	return ts[g.n(len(ts), "letTy")]
 }
 
@@ -554,9 +571,19 @@ func (g *Gen) genInt(sc *Scope, d int) *Expr {
 	case c < 65:
 		g.Stats["closure_in_map"]++
 		if g.chance(50, "mapFieldCall") {
-			return MCall(g.Expr(TRecF, sc, d-1, false), "f", g.Expr(TInt, sc, d-1, true))
+			// (also fields named like a map method: the closure field has precedence)
+			rt := []Ty{TRecF, TRecF, TRecG, TRecI}[g.n(4, "recFieldName")]
+			if rt != TRecF {
+				// the closure takes a string like the map method of that name: a key of the map in half of the cases
+				arg := g.Expr(TStr, sc, d-1, true)
+				if g.chance(50, "keyArg") {
+					arg = Str([]string{"v", RecField(rt)}[g.n(2, "whichKey")])
+				}
+				return MCall(g.Expr(rt, sc, d-1, false), RecField(rt), arg)
+			}
+			return MCall(g.Expr(rt, sc, d-1, false), RecField(rt), g.Expr(TInt, sc, d-1, true))
 		}
-		return Member(g.Expr(TRecF, sc, d-1, false), "v")
+		return Member(g.Expr([]Ty{TRecF, TRecG, TRecI}[g.n(3, "recFieldName2")], sc, d-1, false), "v")
 	case c < 75:
 		// static functions, the arguments are let-positions
 		g.Stats["static_call"]++
@@ -851,6 +878,9 @@ func (g *Gen) genFn(t Ty, sc *Scope, d int) *Expr {
 		return Lam(p, Lam(q, g.Expr(TInt, inner2, d-1, true)))
 	case TRecF:
 		return Map([]string{"v", "f"}, []*Expr{g.Expr(TInt, sc, d-1, true), g.lamInt(sc, d-1)})
+	case TRecG, TRecI:
+		p := g.freshNames(sc, 1)
+		return Map([]string{"v", RecField(t)}, []*Expr{g.Expr(TInt, sc, d-1, true), Lam(p, g.Expr(TInt, sc.fn([]Binding{{p[0], TStr}}), d-1, true))})
 	}
 	panic("genFn")
 }
